@@ -3,9 +3,9 @@
 # Applies a seeded change to /repo, runs the check, and ALWAYS restores /repo afterwards.
 PATCH="$(realpath "$1")"; PROP="$2"; TIER="${3:-quick}"
 if [ -n "$(git -C /repo status --porcelain)" ]; then echo "REFUSING: /repo has uncommitted changes"; exit 3; fi
-if ! git -C /repo apply --check "$PATCH" 2>/dev/null; then echo "PATCH DOES NOT APPLY (3-way attempt)"; git -C /repo apply -3 "$PATCH" || { git -C /repo checkout -- . ; exit 4; }; else git -C /repo apply "$PATCH"; fi
+if ! git -C /repo apply --check "$PATCH" 2>/dev/null; then echo "PATCH DOES NOT APPLY (3-way attempt)"; git -C /repo apply -3 "$PATCH" || { git -C /repo reset -q --hard HEAD; echo "(restored /repo)"; exit 4; }; else git -C /repo apply "$PATCH"; fi
 cd /verif && ./check "$PROP" "$TIER" > /tmp/try_seeded.$$.log 2>&1; rc=$?
-git -C /repo checkout -- . ; git -C /repo clean -fdq -- crates >/dev/null 2>&1
+git -C /repo reset -q --hard HEAD; git -C /repo clean -fdq -- crates >/dev/null 2>&1
 grep -E "^VIOLATION|^KNOWN-FINDING|MACHINERY|done in" /tmp/try_seeded.$$.log | head -12
 grep -A2 "^VIOLATION" /tmp/try_seeded.$$.log | grep -E "kind=|detail" | head -6 | cut -c1-300
 echo "exit=$rc  (1 = detected)"; rm -f /tmp/try_seeded.$$.log
